@@ -59,7 +59,7 @@ TAINTED_SELF_FIELDS = {
     "rtcsctptransport.RTCSctpTransport": [
         "_sack_misordered", "_sack_duplicates", "_last_received_tsn", "_inbound_streams", "_reconfig_response_seq",
         "_ssthresh", "_inbound_streams_count", "_outbound_streams_count", "_remote_extensions", "_last_sacked_tsn",
-        "_remote_verification_tag",
+        "_remote_verification_tag", "_advertised_rwnd",  # the window is decreased by peer-chosen lengths and can go negative
     ],
     "rtcsctptransport.InboundStream": ["reassembly", "sequence_number"],
     "rtcrtpreceiver.NackGenerator": ["max_seq", "missing"],
@@ -203,3 +203,130 @@ def record_obligations(rep: Report, ai: Absint, rule: str, kinds: Optional[Set[s
         else:
             bad += 1
     return ok, bad, skipped
+
+
+def timer_rule(rep: Report, prog: Program, PROP: str, RULE: str) -> None:
+    """Typestate rule for the SCTP timer starters (their `assert handle is None` is an assertion over local state that the
+    facts domain cannot carry across an await): cancel or handle-is-None guard on every path before each start."""
+    import ast
+    from engine.events import EventsDomain, EvState
+    from engine.index import walk_no_nested
+    # (e) timer typestate: the `assert handle is None` of the SCTP timer starters is an assertion over local state that the
+    # facts domain cannot carry across an await; it is decided here as a typestate rule instead (cancel/guard before start).
+    rep.rule(RULE, "every _tN_start() is preceded on every path by _tN_cancel() or a handle-is-None guard (its assert cannot fire on a repeated chunk)", min_instances=5)
+    T = "rtcsctptransport.RTCSctpTransport"
+    FIRST_ARM = {f"{T}._init": "called exactly once, from start() under the __started latch, before any other T1 user can run"}
+    starters = {f"self._t{n}_start": str(n) for n in (1, 2, 3)}
+    n_sites = 0
+    for fi in prog.cls(T).methods.values():
+        if fi.name.endswith("_expired") or not any(isinstance(n, ast.Call) and unparse(n.func) in starters for n in walk_no_nested(fi.node)):
+            continue
+
+        def ev_of(node, f):
+            if isinstance(node, ast.Call):
+                nm = unparse(node.func)
+                for n in ("1", "2", "3"):
+                    if nm == f"self._t{n}_cancel":
+                        return [f"t{n}-clear"]
+                    if nm == f"self._t{n}_start":
+                        return [f"-t{n}-clear"]
+            return []
+        sites = []
+
+        def ob(node, st: EvState, f, sites=sites):
+            if isinstance(node, ast.Call) and unparse(node.func) in starters:
+                n = starters[unparse(node.func)]
+                guarded = st.has_guard(f"not self._t{n}_handle", True) or st.has_guard(f"self._t{n}_handle is None", True) or st.has_guard(f"self._t{n}_handle", False)
+                sites.append((node, n, f"t{n}-clear" in st.events, guarded))
+        EventsDomain(prog, ev_of, ob, kill_guards_on_call=False).run(fi)
+        for node, n, cleared, guarded in sites:
+            n_sites += 1
+            what = f"{fi.qualname}: {unparse(node)[:60]} @ line {node.lineno}"
+            if cleared or guarded:
+                rep.ok(RULE, what, sample=f"_t{n}_cancel() on every path before it" if cleared else f"guarded by the T{n} handle being unset")
+            elif fi.qualname in FIRST_ARM:
+                rep.ok(RULE, what, sample="first arming: " + FIRST_ARM[fi.qualname])
+            else:
+                rep.fail(mk_finding(prog, PROP, RULE, fi, node,
+                                    f"T{n} is started without _t{n}_cancel() or a handle check on every path before it: a repeated chunk (retransmitted because our reply was lost) "
+                                    f"trips `assert self._t{n}_handle is None`, the AssertionError escapes _handle_data and closes the DTLS transport",
+                                    construct=f"_t{n}_start without cancel"))
+    if n_sites < 5:
+        raise AnalysisError(f"only {n_sites} timer start sites found")
+
+
+
+def sign_rule(rep: Report, prog: Program, PROP: str, RULE: str, func_names: List[str]) -> None:
+    """A counter that is decreased by a peer-chosen amount may be negative; it must be clamped before it is put into a field
+    of an outgoing chunk (all such fields are packed with unsigned formats) or packed directly."""
+    import ast
+    from engine.index import walk_no_nested
+    # (f) sign rule: a counter that is decreased by a peer-chosen amount may be negative; it must be clamped before it is
+    # put into a field of an outgoing chunk (all such fields are packed with unsigned formats) or packed directly
+    rep.rule(RULE, "counters decreased by received lengths are clamped at 0 before they are serialised", min_instances=2)
+    dec_fields: Dict[str, Tuple[str, ast.AST]] = {}
+    for fn in func_names:
+        fi = prog.functions.get(fn)
+        if fi is None or fi.cls is None:
+            continue
+        for n in walk_no_nested(fi.node):
+            if isinstance(n, ast.AugAssign) and isinstance(n.op, ast.Sub) and isinstance(n.target, ast.Attribute) and unparse(n.target.value) == "self" \
+                    and not isinstance(n.value, ast.Constant):
+                # is the decrement bounded from below by an existing clamp in the same statement? (x = max(0, x - y) is an Assign, not AugAssign)
+                dec_fields.setdefault(n.target.attr, (fn, n))
+    n_use = 0
+    for fn in func_names:
+        fi = prog.functions.get(fn)
+        if fi is None:
+            continue
+        for n in walk_no_nested(fi.node):
+            sinks: List[Tuple[ast.AST, ast.expr]] = []
+            if isinstance(n, ast.Assign) and len(n.targets) == 1 and isinstance(n.targets[0], ast.Attribute) and isinstance(n.targets[0].value, ast.Name) \
+                    and n.targets[0].value.id != "self":
+                sinks.append((n, n.value))
+            if isinstance(n, ast.Call) and unparse(n.func) in ("pack", "struct.pack"):
+                for a in n.args[1:]:
+                    sinks.append((n, a))
+            for stmt, expr in sinks:
+                for r in ast.walk(expr):
+                    if isinstance(r, ast.Attribute) and unparse(r.value) == "self" and r.attr in dec_fields:
+                        n_use += 1
+                        clamped = isinstance(expr, ast.Call) and unparse(expr.func) == "max" and any(isinstance(a, ast.Constant) and a.value == 0 for a in expr.args) \
+                            and any(a is r for a in expr.args)
+                        what = f"{fn}: {unparse(stmt)[:80]}"
+                        if clamped:
+                            rep.ok(RULE, what, sample=f"self.{r.attr} (decreased in {dec_fields[r.attr][0].split('.')[-1]}) is clamped with max(0, ...)")
+                        else:
+                            rep.fail(mk_finding(prog, PROP, RULE, fi, stmt,
+                                                f"`self.{r.attr}` is decreased by a peer-chosen amount (`{unparse(dec_fields[r.attr][1])}`) and can be negative, but it is serialised "
+                                                f"here without `max(0, ...)`: packing it into an unsigned field raises struct.error, which escapes the receive path",
+                                                construct=f"unclamped self.{r.attr}"))
+    if n_use < 2:
+        raise AnalysisError("C05-SIGN: expected the receive window to be serialised at two sites on the receive path")
+
+
+def serial_subrule(rep: Report, prog: Program, tier: str, PROP: str, RULE: str, modules: List[str], min_instances: int, what: str) -> None:
+    """Runs the serial-number discipline (rule set of C17) on the given modules and reports its findings under RULE."""
+    from . import C17
+    sub = Report("C17", tier, 0)
+    saved = C17.MODULES
+    try:
+        C17.MODULES = list(modules)
+        try:
+            C17.run(sub, prog, tier)
+        except AnalysisError:
+            pass  # the instance minimum of the full C17 run does not apply to a module subset
+    finally:
+        C17.MODULES = saved
+    rep.rule(RULE, what, min_instances=min_instances)
+    n_ok = sum(r["discharged"] for k, r in sub.rules.items() if k != "C17-HELPERS")
+    for f in sub.findings:
+        f.property = PROP
+        f.rule = RULE + "/" + f.rule
+        rep.fail(f)
+    rep.rules[RULE]["instances"] += n_ok
+    rep.rules[RULE]["discharged"] += n_ok
+    rep.obligations += n_ok
+    rep.discharged += n_ok
+    for s in sub.samples[:2]:
+        rep.samples.append(s)
